@@ -610,15 +610,15 @@ func genGunNext(r *rand.Rand, inst int) string {
 }
 
 // genGunPause (round 4): focused cases for the UPPER bound of the pauses (ub=1, see pauseTooLong in gun.go): one instance,
-// one scenario a(1,P1)|b|c|sleep(P2)|a with pauses of 120..250 ms next to steps without a pause (the calibration), three or
-// four shots, a target that answers normally
+// one scenario a(1,P1)|b|c|sleep(P2)|a with pauses of 120..250 ms next to steps without a pause (the calibration), four or
+// five shots, a target that answers normally
 func genGunPause(r *rand.Rand) string {
 	p1, p2 := 150+10*r.Intn(11), 120+10*r.Intn(9)
 	sc := fmt.Sprintf("a(1,%d)|b|c|sleep(%d)|a", p1, p2)
 	if r.Intn(2) == 0 {
 		sc = fmt.Sprintf("b|a(1,%d)|c|b|sleep(%d)", p1, p2)
 	}
-	return fmt.Sprintf("kind=gun inst=1 shots=%d L=2 ub=1 rq=a:G::::;b:G::::;c:%s:::: sc=s1:1:0:%s or=", 3+r.Intn(2), pick(r, "G", "P"), sc)
+	return fmt.Sprintf("kind=gun inst=1 shots=%d L=2 ub=1 rq=a:G::::;b:G::::;c:%s:::: sc=s1:1:0:%s or=", 4+r.Intn(2), pick(r, "G", "P"), sc)
 }
 
 // genGunTmplErr (round 4): focused cases for templates that cannot be used: request b carries a template that does not
